@@ -20,7 +20,7 @@ RULE = ("npy input (files written by write_npy, 1-3 axes): first-chunk length en
         "(Builder::verif_build_from_reader) with first-chunk length exhaustive (small files) and later chunks random down "
         "to 1 byte: decoded sites must equal the whole-buffer run; failures injected at sampled offsets must not yield a "
         "successful run; the real binary fed through a pipe with a delayed, split first write. non-trivial = schedule with a "
-        "first chunk shorter than the format's magic/header; injected failures of every io::ErrorKind (UnexpectedEof included), also beyond the 64 KiB detection prefix; BGZF streams cut inside a block through the binary")
+        "first chunk shorter than the format's magic/header; injected failures of every io::ErrorKind (UnexpectedEof included), also beyond the 64 KiB detection prefix; BGZF streams cut inside a block through the binary; sinks that are full (accept zero bytes) rather than failing, at every offset, npy and text")
 
 
 def fmt(l):
@@ -91,12 +91,17 @@ def check(rep, tier, seed):
             wcases.append("cwrite npy %s 0 %s %s -" % (fmt(sh), bits, fmt(sc)))
         for f in range(L):
             wcases.append("cwrite npy %s 0 %s %s %d" % (fmt(sh), bits, fmt(rng.choice([[], [1] * L, [3] * L])), f))
+            if f % 2 == 0 or f >= L - 9:
+                wcases.append("cwrite npy %s 0 %s %s %d:zero" % (fmt(sh), bits, fmt(rng.choice([[], [5] * L])), f))
         ref = run_impl(["textw %s 4 %s" % (fmt(sh), bits)])[0]
         LT = len(ref) // 2
         for sc in schedules(LT, rng, exhaustive_first=False, extra=4):
             wt.append(("cwrite text %s 4 %s %s -" % (fmt(sh), bits, fmt(sc)), "OK " + ref))
         for f in range(LT):
             wt.append(("cwrite text %s 4 %s %s %d" % (fmt(sh), bits, fmt(rng.choice([[], [1] * LT, [2] * LT])), f), "ERR"))
+            # a destination that is FULL rather than failing (accepts zero bytes, as a fixed-size buffer does): an error as well
+            wt.append(("cwrite text %s 4 %s %s %d:zero" % (fmt(sh), bits, fmt(rng.choice([[], [3] * LT])), f), "ERR"))
+            wt.append(("cwrite text %s 4 %s - %d:%s" % (fmt(sh), bits, f, rng.choice(["eof", "pipe", "timeout", "invalid"])), "ERR"))
     mo_w, outs_w = compare_cases(rep, "npy-short-write", wcases, nontrivial=lambda c, m: True, classify=lambda c, m, i: "chunking:npy-write", spec=True)
     for c, o in zip(dict.fromkeys(wcases), outs_w[False]):
         t = c.split()
